@@ -299,7 +299,7 @@ pub fn run_one(c: &TCase) -> Result<(Outcome, u64), String> {
     let out = with_transport(c.kind, dtype, cfg_len, Run { c })??;
     let (calls, live, failed_hit) = with(|w| (w.hal.alloc_calls, w.hal.live_dma_count(), w.hal.log.iter().any(|e| matches!(e, crate::hal::HalEv::AllocFailed { .. }))));
     // substrate faults: wrong dealloc arguments, double free, release while the device is live
-    if let Some(f) = world::with(|w| w.faults.iter().find(|f| ["dealloc", "quiesce", "attached", "unshare", "share"].contains(&f.prop)).cloned()) {
+    if let Some(f) = world::with(|w| w.faults.iter().find(|f| ["dealloc", "quiesce", "attached", "unshare", "share", "freed_posted"].contains(&f.prop)).cloned()) {
         return Err(format!("[{}] {}", f.prop, f.msg));
     }
     if live != 0 {
